@@ -30,6 +30,125 @@ Lemma sim_rst_event_spec c : sim_rst_event_runs_reset c = spec_async (eff_reset 
 Proof. destruct c as [[] [] [] [] []]; reflexivity. Qed.
 
 
+(* ------------------------------------------------------------------ brace removal preserves type and value *)
+Section Canon.
+  Variables (md : mode) (D : decls) (st : state).
+
+  Definition cat_width (items : list (expr * N)) : N :=
+    (fix go (l : list (expr * N)) : N :=
+       match l with [] => 0 | (a, n) :: t => cw (gather D a) * n + go t end) items.
+  Definition cat_go (items : list (expr * N)) (acc : vec) : vec :=
+    (fix go (l : list (expr * N)) (acc : vec) : vec :=
+       match l with
+       | [] => acc
+       | (a, n) :: t =>
+           let g := gather D a in
+           let v := ev md D st g a in
+           go t (cat2 acc (cw g * n) (repl_nat (cw g) v (N.to_nat n)))
+       end) items acc.
+
+  Lemma gather_cat items : gather D (ECat items) = mkCtx (cat_width items) false.
+  Proof. reflexivity. Qed.
+  Lemma ev_cat items c : ev md D st c (ECat items) = cat_go items (mkVec 0 0).
+  Proof. reflexivity. Qed.
+  Lemma cat_width_cons a n t : cat_width ((a, n) :: t) = cw (gather D a) * n + cat_width t.
+  Proof. reflexivity. Qed.
+  Lemma cat_go_cons a n t acc :
+    cat_go ((a, n) :: t) acc
+    = cat_go t (cat2 acc (cw (gather D a) * n) (repl_nat (cw (gather D a)) (ev md D st (gather D a) a) (N.to_nat n))).
+  Proof. reflexivity. Qed.
+
+  Lemma vec_eta v : mkVec (vp v) (vm v) = v. Proof. destruct v; reflexivity. Qed.
+  Lemma repl_one w v : repl_nat w v 1 = v.
+  Proof. simpl. rewrite ?N.shiftl_0_l, ?N.lor_0_l. apply vec_eta. Qed.
+  Lemma cat2_zero k v : cat2 (mkVec 0 0) k v = v.
+  Proof. unfold cat2. simpl. rewrite ?N.shiftl_0_l, ?N.lor_0_l. apply vec_eta. Qed.
+
+  (* one item that is a single-repeat concatenation contributes exactly what the repeated item contributes *)
+  Lemma item_single_repeat b m acc :
+    let a := ECat [(b, m)] in
+    cat2 acc (cw (gather D a) * 1) (repl_nat (cw (gather D a)) (ev md D st (gather D a) a) (N.to_nat 1))
+    = cat2 acc (cw (gather D b) * m) (repl_nat (cw (gather D b)) (ev md D st (gather D b) b) (N.to_nat m)).
+  Proof.
+    cbv zeta. rewrite gather_cat, ev_cat. cbn [cw]. rewrite cat_width_cons. cbn [cat_width].
+    rewrite N.add_0_r, N.mul_1_r. change (N.to_nat 1) with 1%nat. rewrite repl_one.
+    rewrite cat_go_cons. cbn [cat_go]. rewrite cat2_zero. reflexivity.
+  Qed.
+
+  Definition Pc (e : expr) : Prop :=
+    gather D (canon e) = gather D e /\ forall c, ev md D st c (canon e) = ev md D st c e.
+
+  Definition canon_items (items : list (expr * N)) : list (expr * N) :=
+    (fix go (l : list (expr * N)) : list (expr * N) :=
+       match l with [] => [] | (a, n) :: t => canon_item (canon a) n :: go t end) items.
+
+  Lemma canon_item_sound a n acc t :
+    cat_go (canon_item a n :: t) acc = cat_go ((a, n) :: t) acc /\
+    cat_width (canon_item a n :: t) = cat_width ((a, n) :: t).
+  Proof.
+    unfold canon_item.
+    destruct a as [| | | | | | items | |]; try (split; reflexivity).
+    destruct items as [|[b m] [|? ?]]; try (split; reflexivity).
+    destruct n as [|[?|?|]]; try (split; reflexivity).
+    destruct (m =? 1) eqn:Em; [split; reflexivity|].
+    split.
+    - rewrite !cat_go_cons. rewrite <- (item_single_repeat b m acc). reflexivity.
+    - rewrite !cat_width_cons. rewrite gather_cat. cbn [cw]. rewrite cat_width_cons. cbn [cat_width].
+      rewrite N.add_0_r, N.mul_1_r. reflexivity.
+  Qed.
+
+  Lemma canon_items_sound items : Forall (fun it => Pc (fst it)) items ->
+    (forall acc, cat_go (canon_items items) acc = cat_go items acc) /\ cat_width (canon_items items) = cat_width items.
+  Proof.
+    induction items as [|[a n] t IH]; intros HP; [split; reflexivity|].
+    inversion HP as [|? ? [Ga Ea] Ht]; subst. simpl in Ga, Ea. destruct (IH Ht) as [IHg IHw].
+    change (canon_items ((a, n) :: t)) with (canon_item (canon a) n :: canon_items t).
+    split.
+    - intros acc. rewrite (proj1 (canon_item_sound (canon a) n acc (canon_items t))).
+      rewrite !cat_go_cons, Ga, Ea. apply IHg.
+    - rewrite (proj2 (canon_item_sound (canon a) n (mkVec 0 0) (canon_items t))).
+      rewrite !cat_width_cons, Ga, IHw. reflexivity.
+  Qed.
+
+  Lemma canon_top_sound its :
+    gather D (canon_top its) = gather D (ECat its) /\ forall c, ev md D st c (canon_top its) = ev md D st c (ECat its).
+  Proof.
+    unfold canon_top.
+    destruct its as [|[a n] tl]; [split; reflexivity|].
+    destruct a as [| | | | | | inner | |]; try (split; reflexivity).
+    destruct n as [|[?|?|]]; try (split; reflexivity).
+    destruct tl as [|? ?]; [|split; reflexivity].
+    split.
+    - rewrite !gather_cat. rewrite cat_width_cons. cbn [cat_width]. rewrite gather_cat. cbn [cw].
+      rewrite N.add_0_r, N.mul_1_r. reflexivity.
+    - intros c. rewrite (ev_cat [(ECat inner, 1)]). rewrite cat_go_cons. cbn [cat_go].
+      change (N.to_nat 1) with 1%nat. rewrite repl_one, cat2_zero. rewrite !ev_cat. reflexivity.
+  Qed.
+
+  Lemma canon_sound e : Pc e.
+  Proof.
+    induction e as [w sg p m | x | x hi lo | o e IHe | o e1 e2 IHe1 IHe2 | e1 e2 e3 IHe1 IHe2 IHe3
+                    | items IHitems | w e IHe | sg e IHe] using expr_ind'; unfold Pc.
+    - split; reflexivity.
+    - split; reflexivity.
+    - split; reflexivity.
+    - destruct IHe as [G E]. split; simpl; [rewrite G; reflexivity|].
+      intros c. destruct o; rewrite ?G, ?E; reflexivity.
+    - destruct IHe1 as [G1 E1], IHe2 as [G2 E2]. split; simpl; [rewrite G1, G2; reflexivity|].
+      intros c. destruct o; rewrite ?G1, ?G2, ?E1, ?E2; reflexivity.
+    - destruct IHe1 as [G1 E1], IHe2 as [G2 E2], IHe3 as [G3 E3]. split; simpl; [rewrite G2, G3; reflexivity|].
+      intros c. rewrite G1, E1, E2, E3. reflexivity.
+    - change (canon (ECat items)) with (canon_top (canon_items items)).
+      destruct (canon_top_sound (canon_items items)) as [Gt Et].
+      destruct (canon_items_sound items IHitems) as [Hg Hw].
+      split.
+      + rewrite Gt, !gather_cat, Hw. reflexivity.
+      + intros c. rewrite Et, !ev_cat. apply Hg.
+    - destruct IHe as [G E]. split; simpl; [reflexivity|]. intros c. rewrite G, E. reflexivity.
+    - destruct IHe as [G E]. split; simpl; [rewrite G; reflexivity|]. intros c. rewrite G, E. reflexivity.
+  Qed.
+End Canon.
+
 (* ------------------------------------------------------------------ (ii) expressions *)
 Lemma andb3 a b c : a && b && c = true -> a = true /\ b = true /\ c = true.
 Proof. destruct a, b, c; simpl; intuition congruence. Qed.
@@ -39,11 +158,11 @@ Section Exprs.
 
   (* strict: same self-determined type and same value in every context *)
   Definition Sx (e : expr) : Prop :=
-    sv_gather D (emit_expr e) = gather D e /\ forall c, sv_ev md env D st c (emit_expr e) = ev md D st c e.
+    sv_gather D (emit_plain e) = gather D e /\ forall c, sv_ev md env D st c (emit_plain e) = ev md D st c e.
   (* weak: same self-determined width and same self-determined value *)
   Definition Wx (e : expr) : Prop :=
-    cw (sv_gather D (emit_expr e)) = cw (gather D e) /\
-    sv_ev md env D st (sv_gather D (emit_expr e)) (emit_expr e) = ev md D st (gather D e) e.
+    cw (sv_gather D (emit_plain e)) = cw (gather D e) /\
+    sv_ev md env D st (sv_gather D (emit_plain e)) (emit_plain e) = ev md D st (gather D e) e.
   Definition Px (e : expr) : Prop := (expr_ok D e = true -> Sx e) /\ (expr_okw D e = true -> Wx e).
 
   Lemma S_W e : Sx e -> Wx e.
@@ -144,17 +263,31 @@ Section Exprs.
       split; [exact HS | apply weak_nonbin; [exact HS | discriminate]].
   Qed.
 
-  Lemma gather_emit_x e : expr_ok D e = true -> sv_gather D (emit_expr e) = gather D e.
+  Lemma gather_plain e : expr_ok D e = true -> sv_gather D (emit_plain e) = gather D e.
   Proof. intros H. apply (proj1 (emit_sound e) H). Qed.
-  Lemma ev_emit e : expr_ok D e = true -> forall c, sv_ev md env D st c (emit_expr e) = ev md D st c e.
+  Lemma ev_plain e : expr_ok D e = true -> forall c, sv_ev md env D st c (emit_plain e) = ev md D st c e.
   Proof. intros H. apply (proj1 (emit_sound e) H). Qed.
-  Lemma ev_emit_weak e : expr_okw D e = true ->
-    sv_ev md env D st (sv_gather D (emit_expr e)) (emit_expr e) = ev md D st (gather D e) e.
+  Lemma ev_plain_weak e : expr_okw D e = true ->
+    sv_ev md env D st (sv_gather D (emit_plain e)) (emit_plain e) = ev md D st (gather D e) e.
   Proof. intros H. apply (proj2 (emit_sound e) H). Qed.
 End Exprs.
 
-Lemma gather_emit D e : expr_ok D e = true -> sv_gather D (emit_expr e) = gather D e.
-Proof. exact (gather_emit_x M4 (fun _ => false) D (fun _ => mkVec 0 0) e). Qed.
+(* the printed expression = emit_plain of the brace-normalised expression *)
+Lemma gather_emit D e : expr_okc D e = true -> sv_gather D (emit_expr e) = gather D e.
+Proof.
+  intros H. unfold emit_expr. rewrite (gather_plain M4 (fun _ => false) D (fun _ => mkVec 0 0) (canon e) H).
+  apply (canon_sound M4 D (fun _ => mkVec 0 0) e).
+Qed.
+Lemma ev_emit md env D st e : expr_okc D e = true -> forall c, sv_ev md env D st c (emit_expr e) = ev md D st c e.
+Proof.
+  intros H c. unfold emit_expr. rewrite (ev_plain md env D st (canon e) H c). apply (canon_sound md D st e).
+Qed.
+Lemma ev_emit_weak md env D st e : expr_okwc D e = true ->
+  sv_ev md env D st (sv_gather D (emit_expr e)) (emit_expr e) = ev md D st (gather D e) e.
+Proof.
+  intros H. unfold emit_expr. rewrite (ev_plain_weak md env D st (canon e) H).
+  destruct (canon_sound md D st e) as [G E]. rewrite G. apply E.
+Qed.
 
 (* ------------------------------------------------------------------ unfolding µSV statements *)
 Definition sv_pick (md : mode) (env : senv) (D : decls) (st : state) (inside : bool) (cc : ctx) (sel : svexpr)
@@ -205,20 +338,20 @@ Proof. induction arms as [|[p b] r IH]; [reflexivity|]. simpl. rewrite go_ok, IH
 Definition pats_ok D sel (arms : list (list expr * list stmt)) : bool :=
   if arms_2state arms
   then forallb (fun arm : list expr * list stmt => forallb (simple_pat D sel) (fst arm)) arms
-  else forallb (fun arm : list expr * list stmt => forallb (expr_ok D) (fst arm)) arms.
+  else forallb (fun arm : list expr * list stmt => forallb (expr_okc D) (fst arm)) arms.
 
 Lemma stmt_ok_if D c t f :
-  stmt_ok D (SIf c t f) = expr_okw D c && forallb (stmt_ok D) t && forallb (stmt_ok D) f.
+  stmt_ok D (SIf c t f) = expr_okwc D c && forallb (stmt_ok D) t && forallb (stmt_ok D) f.
 Proof. simpl. rewrite !go_ok. reflexivity. Qed.
 Lemma stmt_ok_case D sel arms dflt :
-  stmt_ok D (SCase sel arms dflt) = expr_ok D sel && pats_ok D sel arms && arms_ok D arms && forallb (stmt_ok D) dflt.
+  stmt_ok D (SCase sel arms dflt) = expr_okc D sel && pats_ok D sel arms && arms_ok D arms && forallb (stmt_ok D) dflt.
 Proof. cbn [stmt_ok]. rewrite go_ok, pick_ok. reflexivity. Qed.
 
 (* ------------------------------------------------------------------ conditions and case items *)
-Lemma cond_emit md env D st c : expr_ok D c = true -> sv_cond md env D st (emit_expr c) = cond_true md D st c.
+Lemma cond_emit md env D st c : expr_okc D c = true -> sv_cond md env D st (emit_expr c) = cond_true md D st c.
 Proof. intros H. unfold sv_cond, cond_true. rewrite (gather_emit D c H), (ev_emit md env D st c H). reflexivity. Qed.
 
-Lemma cond_emit_w md env D st c : expr_okw D c = true -> sv_cond md env D st (emit_expr c) = cond_true md D st c.
+Lemma cond_emit_w md env D st c : expr_okwc D c = true -> sv_cond md env D st (emit_expr c) = cond_true md D st c.
 Proof. intros H. unfold sv_cond, cond_true. rewrite (ev_emit_weak md env D st c H). reflexivity. Qed.
 
 (* === against an item without x/z is ==? being true *)
@@ -267,7 +400,7 @@ Proof.
 Qed.
 
 Lemma case_ctx_simple D sel arms nb :
-  expr_ok D sel = true ->
+  expr_okc D sel = true ->
   forallb (fun arm : list expr * list stmt => forallb (simple_pat D sel) (fst arm)) arms = true ->
   case_ctx D (emit_expr sel) (map (emit_arm nb) arms) = mkCtx (cw (gather D sel)) (cs (gather D sel) && nopat arms).
 Proof.
@@ -286,7 +419,7 @@ Proof.
 Qed.
 
 Lemma arm_match_plain md env D st sel pats cc :
-  expr_ok D sel = true -> forallb (simple_pat D sel) pats = true ->
+  expr_okc D sel = true -> forallb (simple_pat D sel) pats = true ->
   (pats <> [] -> cc = mkCtx (cw (gather D sel)) false) ->
   sv_arm_match md env D st false cc (emit_expr sel) (map emit_expr pats) = arm_match md D st sel pats.
 Proof.
@@ -297,14 +430,15 @@ Proof.
   simpl in Hs. apply andb_true_iff in Hs. destruct Hs as [Hp Ht].
   cbn [map existsb]. rewrite (IH Ht). f_equal.
   destruct (simple_pat_inv D sel p Hp) as [pv ->].
-  unfold cond_true. cbn [gather ev emit_expr sv_ev]. rewrite (ev_emit md env D st sel Hsel).
+  change (emit_expr (ELit (cw (gather D sel)) false pv 0)) with (XLit (cw (gather D sel)) false pv 0).
+  unfold cond_true. cbn [gather ev sv_ev]. rewrite (ev_emit md env D st sel Hsel).
   unfold cmerge. cbn [cw cs]. rewrite N.max_id, !andb_false_r. cbn [andb].
   symmetry. apply weq_ceq.
   unfold ext. rewrite orb_true_r. destruct md; reflexivity.
 Qed.
 
 Lemma arm_match_inside md env D st sel pats cc :
-  expr_ok D sel = true -> forallb (expr_ok D) pats = true ->
+  expr_okc D sel = true -> forallb (expr_okc D) pats = true ->
   sv_arm_match md env D st true cc (emit_expr sel) (map emit_expr pats) = arm_match md D st sel pats.
 Proof.
   intros Hsel Hs. unfold sv_arm_match, arm_match.
@@ -312,7 +446,7 @@ Proof.
   simpl in Hs. apply andb_true_iff in Hs. destruct Hs as [Hp Ht].
   cbn [map existsb]. rewrite (IH Ht). f_equal.
   change (XBin BWeq (emit_expr sel) (emit_expr p)) with (emit_expr (EBin BWeq sel p)).
-  apply cond_emit. simpl. rewrite Hsel, Hp. reflexivity.
+  apply cond_emit. unfold expr_okc in *. simpl. rewrite Hsel, Hp. reflexivity.
 Qed.
 
 Lemma nopat_false_in arms pats : forall body,
@@ -336,7 +470,7 @@ Proof.
 Qed.
 
 Lemma pick_emit_ok md env D st nb sel arms dflt :
-  expr_ok D sel = true -> pats_ok D sel arms = true ->
+  expr_okc D sel = true -> pats_ok D sel arms = true ->
   sv_pick md env D st (negb (arms_2state arms)) (case_ctx D (emit_expr sel) (map (emit_arm nb) arms))
           (emit_expr sel) (map (emit_arm nb) arms) (map (emit_stmt nb) dflt)
   = map (emit_stmt nb) (pick_arm md D st sel arms dflt).
@@ -378,7 +512,7 @@ Section Stmts.
       rewrite (Hs Hos nb p), (IH Hl Hol nb). destruct nb; reflexivity.
   Qed.
 
-  Lemma actx_emit wl e : expr_ok D e = true -> sv_actx D wl (emit_expr e) = actx D wl e.
+  Lemma actx_emit wl e : expr_okc D e = true -> sv_actx D wl (emit_expr e) = actx D wl e.
   Proof. intros H. unfold sv_actx, actx. rewrite (gather_emit D e H). reflexivity. Qed.
 
   Lemma stmt_emit s : Pst s.
